@@ -196,13 +196,13 @@ def rand_block(rng, pool, maxf=12):
     return out
 
 
-def lean_policy_block(rng, tbl, hdrs, first_resizes):
+def lean_policy_block(rng, tbl, hdrs, first_resizes, midblock=False):
     """fields for the Lean reference encoder `enc` op + python-side table tracking;
     returns the token text"""
     toks = []
     for k, (n, v) in enumerate(hdrs):
         resizes = first_resizes if k == 0 else []
-        if k and rng.random() < 0.03:
+        if k and midblock and rng.random() < 0.1:     # lshpack accepts updates between fields too
             resizes = [rng.choice([0, 64, 200, 4096, rng.randint(0, 4096)])]
         for r in resizes:
             tbl.resize(min(r, 4096))
@@ -409,6 +409,7 @@ def gen_histories(ctx, exe):
         nblocks = rng.randint(300, 1000) if long else rng.choice([1, 2, 3, 5, 8, 20, 40])
         pool = rand_pool(rng, rng.choice([3, 8, 30, 120]))
         which = ("lean", "ls", "ng")[ci % 3]
+        midblock = which == "lean" and rng.random() < 0.12
         ops, exps, disp = [], [], []
         tbl = PyTable(4096)
         for bi in range(nblocks):
@@ -421,7 +422,7 @@ def gen_histories(ctx, exe):
                         first.append(rng.choice([4096, 4096, rng.randint(0, 4096)]))
                 if not hdrs:
                     first = []
-                ops.append(lean_policy_block(rng, tbl, hdrs, first))
+                ops.append(lean_policy_block(rng, tbl, hdrs, first, midblock))
             else:
                 if rng.random() < 0.04:
                     c = rng.choice([0, 100, 1000, 4096, rng.randint(0, 4096)])
@@ -435,7 +436,7 @@ def gen_histories(ctx, exe):
         if which == "lean":
             lean_in.append("enc 4096 4096 " + line)
             ft = ",".join("%s:%s" % (C.hx(n), C.hx(v)) for n, v in tbl.dyn) if tbl.dyn else "-"
-            meta["lean"].append((exps, disp, ft))
+            meta["lean"].append((exps, disp, (ft, midblock)))
         elif which == "ls":
             ls_in.append("lsenc " + line)
             meta["ls"].append((exps, disp, None))
@@ -471,10 +472,11 @@ def gen_histories(ctx, exe):
                 cops.append(d + blk)
                 if d == "B":
                     cexp.append(e)
-            line = "connv 65535 " + " ".join(cops)
+            # size updates between fields are not RFC-conformant (nghttp2 rejects them): model only
+            line = ("conn" if (ft and ft[1]) else "connv") + " 65535 " + " ".join(cops)
             EXPECT[line] = cexp
             if ft is not None:
-                FINALTBL[line] = ft
+                FINALTBL[line] = ft[0]
             lines.append(line)
     return lines
 
